@@ -776,8 +776,16 @@ def simulate_poly(rng, tmp, p):
     rl_min, rl_max = p.get("read_len", (200, 800))
     gaps = []
     for _ in range(p.get("coverage_gaps", 0)):
+        vpos = [v["pos"] for v in sim.variants[sim.chroms[0]]]
+        if p.get("gaps_between_variants") and len(vpos) >= 4:
+            # a read-free stretch between two neighbouring variants: the read-connected blocks end there
+            i = rng.randrange(1, len(vpos) - 2)
+            if vpos[i + 1] - vpos[i] >= 12:
+                gaps.append((vpos[i] + 3, vpos[i + 1] - 3))
+            continue
         g = rng.randrange(200, L - 400)
         gaps.append((g, g + rng.randint(100, 400)))
+    sim.gaps = list(gaps)
     for c in sim.chroms:
         for s in samples:
             nfrag = max(1, int(depth * P * L / ((rl_min + rl_max) / 2)))
@@ -870,8 +878,11 @@ def simulate_poly(rng, tmp, p):
     return sim
 
 
-def truth_phased_doc_poly(sim, rng, block_len=(3, 8)):
-    """Polyploid truth phasing encoded with PS: GT = alleles of the P haplotypes in a per-block random haplotype order."""
+def truth_phased_doc_poly(sim, rng, block_len=(3, 8), straddle=0.0, cut_at_gaps=False):
+    """Polyploid truth phasing encoded with PS: GT = alleles of the P haplotypes in a per-block random haplotype order.
+    straddle: probability that a new block continues the phase set before the previous one (a long-range set with another set
+    nested in its gap). cut_at_gaps: phase sets end where the read coverage is interrupted (sim.gaps), so that with straddle a
+    set has variants on both sides of a read-connected stretch but none inside it."""
     import copy
 
     from wv.gen import vcf as gvcf
@@ -887,6 +898,7 @@ def truth_phased_doc_poly(sim, rng, block_len=(3, 8)):
         si = d.samples.index(s)
         for c in sim.chroms:
             st = None
+            history = []
             for r in d.records:
                 if r["chrom"] != c:
                     continue
@@ -894,10 +906,16 @@ def truth_phased_doc_poly(sim, rng, block_len=(3, 8)):
                 al = [sim.haps[c][s][h][i] for h in range(P)]
                 if len(set(al)) < 2:
                     continue
+                seg = sum(1 for g0, g1 in getattr(sim, "gaps", []) if g0 < r["pos"]) if cut_at_gaps else 0
+                if st is not None and cut_at_gaps and seg != st[3]:
+                    st[1] = 0
                 if st is None or st[1] <= 0:
                     perm = list(range(P))
                     rng.shuffle(perm)
-                    st = [r["pos"], rng.randint(*block_len), perm]
+                    st = [r["pos"], rng.randint(*block_len) if not cut_at_gaps else 10 ** 6, perm, seg]
+                    if straddle and len(history) >= 2 and rng.random() < straddle:
+                        st = [history[-2][0], rng.randint(*block_len) if not cut_at_gaps else 10 ** 6, history[-2][2], seg]
+                    history.append(st)
                 st[1] -= 1
                 ordered = tuple(al[st[2][h]] for h in range(P))
                 r["calls"][si]["GT"] = "|".join(str(x) for x in ordered)
